@@ -60,6 +60,14 @@ func newActiveTCPConn(
 		a.remoteAddr.Store(conn.RemoteAddr())
 
 		go func() {
+			// Once the read loop stops the stream cannot be parsed any further
+			// (oversized frame, garbage, truncated stream): close it, and let
+			// ReadFrom report the end of the stream instead of blocking.
+			defer func() {
+				_ = a.readBuffer.Close()
+				_ = conn.Close()
+			}()
+
 			buff := make([]byte, receiveMTU)
 
 			for !a.closed.Load() {
